@@ -81,6 +81,9 @@ pub struct HybridCfg {
     pub compression: String,
     #[serde(default)]
     pub pad: usize,
+    /// hashes the admission filter rejects
+    #[serde(default)]
+    pub reject: Vec<u64>,
     #[serde(default = "default_blocks")]
     pub blocks: usize,
     #[serde(default = "default_block_pages")]
@@ -110,12 +113,12 @@ fn default_block_pages() -> usize {
 }
 
 #[derive(Debug, Default)]
-struct EnqRecorder(Arc<Mutex<Vec<u64>>>);
+struct EnqRecorder(Arc<Mutex<Vec<u64>>>, Vec<u64>);
 
 impl StorageFilterCondition for EnqRecorder {
     fn filter(&self, _: &Arc<Statistics>, hash: u64, _: usize) -> StorageFilterResult {
         self.0.lock().push(hash);
-        StorageFilterResult::Admit
+        if self.1.contains(&hash) { StorageFilterResult::Reject } else { StorageFilterResult::Admit }
     }
 }
 
@@ -329,7 +332,7 @@ impl HybridRunner {
             .with_tombstone_log(h.tomblog)
             .with_flush_switch(self.switch.clone())
             .with_compression(compression)
-            .with_admission_filter(StorageFilter::new().with_condition(EnqRecorder(self.enq.clone())));
+            .with_admission_filter(StorageFilter::new().with_condition(EnqRecorder(self.enq.clone(), h.reject.clone())));
         let policy = if h.policy == "woi" { HybridCachePolicy::WriteOnInsertion } else { HybridCachePolicy::WriteOnEviction };
         let builder = HybridCacheBuilder::new()
             .with_policy(policy)
